@@ -23,7 +23,7 @@ func init() {
 		ID:      "C16",
 		Level:   "exploration",
 		Workers: 16,
-		Rule: "request mutation over the real service: valid requests captured from correct clients in all states (due-to-create, due-to-subscribe, subscribed with and without pending operations) are mutated in one to three fields - unknown / foreign / empty / swapped DUID, unknown or empty key, wrong type, every combination of the seven option bits (read-only with and without operations, snapshot, delete, unsubscribe, error), checkpoints stale / future / huge / zero, operation lists with gaps, repeats, reordering, foreign client id, other era, emptied, 500 operations; unregistered / foreign-collection / administrative / empty client id, unknown / other / empty collection, no packs, duplicated packs - plus correct requests with a panic injected inside their handler's goroutine between lock acquisition and commit (hook pp.before-commit: the recovery path must answer, keep the process alive and release the key; also for ONE of the two handlers of a two-pack message, which must still be answered with both packs), plus ClientMessage, PatchMessage (invalid JSON, non-object JSON, key of another type, unknown collection) and CollectionMessage variants. Monitors: every call is answered (watchdog classification: a handler that ended without replying is a hang), a server panic is a violation, refused (RPC error or error-bit pack) => store diff empty (volatile timestamps ignored); after every hostile request a canary client syncs the same key and another key and must be answered; after an ACCEPTED hostile request the stored log must still satisfy the structural invariants of C06 (gapless up to the recorded end, nobody acknowledged beyond what is stored). Client half: every error pack the server produced in the run and the five defined push-pull error codes are applied to a subscribed client: its error handler must be called, nothing may panic, and it must complete a normal sync of another datatype afterwards; every third case also runs the client half through the SDK's own sync path (Client.Sync() over real grpc): a lost response, a request refused at the RPC level and an error pack for one of two datatypes, in random order - after each the next Sync() must return (watchdog classification: waiting for the client's sync semaphore while no sync is under way is a hang) and succeed, the error pack must reach an error handler, and every issued operation ends up stored exactly once; " +
+		Rule: "request mutation over the real service: valid requests captured from correct clients in all states (due-to-create, due-to-subscribe, subscribed with and without pending operations) are mutated in one to three fields - unknown / foreign / empty / swapped DUID, unknown or empty key, wrong type, every combination of the seven option bits (read-only with and without operations, snapshot, delete, unsubscribe, error), checkpoints stale / future / huge / zero, operation lists with gaps, repeats, reordering, foreign client id, other era, emptied, 500 operations; unregistered / foreign-collection / administrative / empty client id, unknown / other / empty collection, no packs, duplicated packs - plus correct requests with a panic injected inside their handler's goroutine between lock acquisition and commit (hook pp.before-commit: the recovery path must answer, keep the process alive and release the key; also for ONE of the two handlers of a two-pack message, which must still be answered with both packs), plus ClientMessage, PatchMessage (invalid JSON, non-object JSON, key of another type, unknown collection) and CollectionMessage variants. Monitors: every call is answered (watchdog classification: a handler that ended without replying is a hang; a call that returns neither a response nor an error is not an answer), a server panic is a violation, refused (RPC error or error-bit pack) => store diff empty (volatile timestamps ignored); after every hostile request a canary client syncs the same key and another key and must be answered; after an ACCEPTED hostile request the stored log must still satisfy the structural invariants of C06 (gapless up to the recorded end, nobody acknowledged beyond what is stored). Client half: every error pack the server produced in the run and the five defined push-pull error codes are applied to a subscribed client: its error handler must be called, nothing may panic, and it must complete a normal sync of another datatype afterwards; every third case also runs the client half through the SDK's own sync path (Client.Sync() over real grpc): a lost response, a request refused at the RPC level and an error pack for one of two datatypes, in random order - after each the next Sync() must return (watchdog classification: waiting for the client's sync semaphore while no sync is under way is a hang) and succeed, the error pack must reach an error handler, and every issued operation ends up stored exactly once; " +
 			"non-trivial = the request differs from any request a correct client could send (every mutated request); distinct = hash of the mutation script",
 		Assumptions: []string{
 			"only 'answered / not answered / crashed' and 'refused => unchanged' are verdicts; whatever a canary notices after an ACCEPTED hostile request (error pack, client-side panic) is recorded as a diagnostic",
@@ -465,10 +465,15 @@ func runC16(c *core.Case) *core.Result {
 			}
 			c.Step("hostile client message variant %d", variant)
 			before := x.snap()
+			answered := false
 			out := bed.Guard(10e9, func(ctx context.Context) error {
-				_, err := w.b.Svc.ProcessClient(ctx, msg)
+				resp, err := w.b.Svc.ProcessClient(ctx, msg)
+				answered = resp != nil
 				return err
 			})
+			if res := x.emptyAnswer("ProcessClient", out, answered); res != nil {
+				return res
+			}
 			if res := x.judge(fmt.Sprintf("ProcessClient(variant %d)", variant), out, out.Err != nil, before); res != nil {
 				return res
 			}
@@ -491,10 +496,15 @@ func runC16(c *core.Case) *core.Result {
 			}
 			c.Step("hostile patch message variant %d (k0 is a %s)", variant, typ)
 			before := x.snap()
+			answered := false
 			out := bed.Guard(15e9, func(ctx context.Context) error {
-				_, err := w.b.Svc.PatchDocument(ctx, pm)
+				resp, err := w.b.Svc.PatchDocument(ctx, pm)
+				answered = resp != nil
 				return err
 			})
+			if res := x.emptyAnswer("PatchDocument", out, answered); res != nil {
+				return res
+			}
 			if res := x.judge(fmt.Sprintf("PatchDocument(variant %d, k0:%s)", variant, typ), out, out.Err != nil, before); res != nil {
 				return res
 			}
@@ -502,10 +512,15 @@ func runC16(c *core.Case) *core.Result {
 			name := []string{"", "col/with/slash", "colA", strings.Repeat("c", 300)}[r.Intn(4)]
 			c.Step("hostile collection message %q", clip(name, 30))
 			before := x.snap()
+			answered := false
 			out := bed.Guard(10e9, func(ctx context.Context) error {
-				_, err := w.b.Svc.CreateCollection(ctx, &model.CollectionMessage{Collection: name})
+				resp, err := w.b.Svc.CreateCollection(ctx, &model.CollectionMessage{Collection: name})
+				answered = resp != nil
 				return err
 			})
+			if res := x.emptyAnswer("CreateCollection", out, answered); res != nil {
+				return res
+			}
 			if res := x.judge("CreateCollection", out, out.Err != nil, before); res != nil {
 				return res
 			}
@@ -825,6 +840,16 @@ func (x *c16world) multiPackHandlerFault() *core.Result {
 		if try == 1 {
 			return c.Violation("key-blocked-after-handler-fault", "after a handler fault in a two-pack message correct requests on keys k0 / k9 keep being refused: a key was not released")
 		}
+	}
+	return nil
+}
+
+// emptyAnswer: a call that returned neither a response nor an error has not answered its
+// caller (over gRPC the client would see an internal marshalling error instead of the
+// refusal and its reason).
+func (x *c16world) emptyAnswer(rpc string, out bed.CallOutcome, answered bool) *core.Result {
+	if out.Panic == "" && !out.TimedOut && out.Err == nil && !answered {
+		return x.w.c.Violation("empty-answer:"+rpc, "%s returned neither a response nor an error", rpc)
 	}
 	return nil
 }
